@@ -3,6 +3,7 @@ module verif
 go 1.21
 
 require (
+	github.com/RoaringBitmap/roaring v0.9.4
 	github.com/anishathalye/porcupine v1.3.0
 	github.com/axiomhq/hyperloglog v0.0.0-20191112132149-a4c4c47bc57f
 	github.com/blugelabs/bluge v0.0.0
@@ -13,7 +14,6 @@ require (
 )
 
 require (
-	github.com/RoaringBitmap/roaring v0.9.4 // indirect
 	github.com/bits-and-blooms/bitset v1.2.0 // indirect
 	github.com/blevesearch/go-porterstemmer v1.0.3 // indirect
 	github.com/blevesearch/mmap-go v1.0.4 // indirect
